@@ -119,9 +119,12 @@ pub fn generate(
     {
         crate::verif::field(
             "renumber",
-            crate::dfa::verif::renumber_json(&dfa, ctx.n_inlined_states(), |s| {
-                ctx.renumber_state(s)
-            }),
+            crate::dfa::verif::renumber_json(
+                &dfa,
+                ctx.n_inlined_states(),
+                |s| ctx.renumber_state(s),
+                |s| ctx.is_inlined(s),
+            ),
         );
         let switch: Vec<(String, StateIdx)> = ctx
             .rule_states()
